@@ -97,8 +97,13 @@ def potable_cli(cfg_text, args=(), want_output=True, binary=False):
             # argparse FileType leaves the config file open
         content = None
         if os.path.exists(out):
-            with open(out, "rb" if binary else "r") as f:
+            with open(out, "rb") as f:
                 content = f.read()
+            if not binary:
+                try:
+                    content = content.decode("utf-8")
+                except UnicodeDecodeError:
+                    pass                      # a binary target (xlsx): keep the bytes
         return dict(rc=rc, stdout=so.getvalue(), stderr=se.getvalue(), output=content)
     finally:
         shutil.rmtree(d, ignore_errors=True)
